@@ -32,6 +32,8 @@ import (
 // reference model of acknowledged (plus possibly the in-flight) inserts.
 
 type c02Case struct {
+	// Start: events run before the enumerated ones (a non-initial start state; imaged and recovered like the rest)
+	Start  []int `json:"start,omitempty"`
 	Events []int `json:"events"` // 0..3 inserts, 4 Flush(t1), 5 FlushAll, 6 clean Restart
 	// replay: only the image taken at this hit of this point (0 = all)
 	Point string `json:"point,omitempty"`
@@ -352,7 +354,15 @@ func c02Recover(c *fw.Ctx, dir string, inserted []int, n int, maybeOneMore bool,
 	return key, lastDiff
 }
 
+// start states: empty directory; both tables have a data file, and t2 (which filtered the last point out) also has an
+// offset file that is ahead of its data file
+func c02Starts() [][]int { return [][]int{nil, {0, 5, 3, 5}} }
+
 func c02Run(c *fw.Ctx, cs c02Case, conformance bool) {
+	if len(cs.Start) > 0 {
+		cs.Events = append(append([]int{}, cs.Start...), cs.Events...)
+		cs.Start = nil
+	}
 	base := newDir(c)
 	defer removeDir(base)
 	live := filepath.Join(base, "live")
@@ -471,10 +481,10 @@ func C02ChildMain(args []string) {
 
 func init() {
 	fw.Register(&fw.Prop{
-		ID:        "C02",
-		Level:     "fault_enumeration",
-		NoThreads: true,
-		Rule: "all histories of the bound over {4 inserts (two keys, two periods, one filtered out of the second table: offset-only flush path), Flush(t1), FlushAll, clean Restart} on two tables of one stream; at every hit of each of 17 instrumented steps (WAL write before/after, memstore applied, entry done, flush temp/written/synced/closed/renamed/swapped, offset file start/written/synced/closed/renamed, old-file removal before/after) the data directory is copied; every distinct image (by normalised content hash) plus 6 torn-tail length classes of the in-flight WAL entry is recovered with a fresh DB to exact quiescence and compared with the reference model of the acknowledged inserts (in-flight insert: 0 or 1 times); thorough recovers a second time after the clean close; quick also runs a real child process that exits inside the hook and compares its directory with the image; evaluations = recoveries, non-trivial = distinct images",
+		ID:          "C02",
+		Level:       "fault_enumeration",
+		NoThreads:   true,
+		Rule:        "all histories of the bound over {4 inserts (two keys, two periods, one filtered out of the second table: offset-only flush path), Flush(t1), FlushAll, clean Restart} on two tables of one stream, started from the empty directory and from a non-initial state (insert, FlushAll, filtered insert, FlushAll: data files exist and t2's offset file is ahead of its data file); at every hit of each of 17 instrumented steps (WAL write before/after, memstore applied, entry done, flush temp/written/synced/closed/renamed/swapped, offset file start/written/synced/closed/renamed, old-file removal before/after) the data directory is copied; every distinct image (by normalised content hash) plus 6 torn-tail length classes of the in-flight WAL entry is recovered with a fresh DB to exact quiescence and compared with the reference model of the acknowledged inserts (in-flight insert: 0 or 1 times); thorough recovers a second time after the clean close; quick also runs a real child process that exits inside the hook and compares its directory with the image; evaluations = recoveries, non-trivial = distinct images",
 		Assumptions: []string{"process-kill model: the page cache survives, so no unsynced-block subsets", "kill instants inside the wal package other than the torn-tail classes are not represented", "images are taken while other table actors may still be running non-hooked code; every rename is atomic, so each image is a state that existed"},
 		Shards:      func(tier string) int { return 16 },
 		Budget: func(tier string) time.Duration {
@@ -490,8 +500,18 @@ func init() {
 			}
 			total := ipow(c02NEvents, n)
 			var idx int64
-			for i := int64(0); i < total; i++ {
+			for si := int64(0); si < total*int64(len(c02Starts())); si++ {
+				i, start := si%total, c02Starts()[si/total]
+				if len(start) > 0 && n > 3 {
+					i = si % ipow(c02NEvents, 3) // from the non-initial state: length 3 in both tiers
+					if si-total >= ipow(c02NEvents, 3) {
+						break
+					}
+				}
 				ev := seqFromIndex(i, c02NEvents, n)
+				if len(start) > 0 {
+					ev = seqFromIndex(i, c02NEvents, 3)
+				}
 				hasIns := false
 				for _, e := range ev {
 					if e < 4 {
@@ -509,15 +529,15 @@ func init() {
 					c.Incomplete("time budget used up")
 					return
 				}
-				cs := c02Case{Events: ev}
+				cs := c02Case{Start: start, Events: ev}
 				var names []string
-				for _, e := range ev {
+				for _, e := range append(append([]int{}, start...), ev...) {
 					names = append(names, c02EventName(e))
 				}
 				c.Sample("history", names)
 				c02Run(c, cs, !c.Thorough() && idx%8 == 0)
 			}
-			c.R.Bound = fmt.Sprintf("all histories of length %d with at least one insert", n)
+			c.R.Bound = fmt.Sprintf("all histories of length %d with at least one insert from the empty directory, and of length 3 from a state in which both tables have a data file and t2's offset file is ahead of its data file", n)
 		},
 		Replay: func(c *fw.Ctx, raw json.RawMessage) {
 			var cs c02Case
